@@ -112,7 +112,7 @@ def w_deterministic(ctx, rng, i):
     n = int(rng.choice([17, 32, 100, 257, 1024]))
     n_pol = int(rng.integers(1, 3))
     noise = bool(rng.integers(2))
-    amp = float(10 ** rng.uniform(-4, -0.5))
+    amp = float(10 ** rng.uniform(-4, -0.5)) if rng.integers(8) else float(10 ** rng.choice([-9.0, -7.0, 0.5]))
     x = make_field(rng, n, n_pol, noise, amp)
     p = rand_case(rng)
     BW = float(rng.uniform(0.01, 0.49)) * fs
@@ -145,6 +145,8 @@ def w_deterministic(ctx, rng, i):
         ao = D.PD(x, BW, p["r"], p["T"], p["R_load"], "ase-only", p["i_dark"], p["Fn"])
         want = lpf_ref(p["R_load"] * (p["r"] * beat_terms(x) + p["i_dark"]), BW)
         ctx.check("twin.ase_only", relerr(ao.noise, want, floor=p["R_load"] * p["i_dark"]) <= 1e-9, "'ase-only' noise != filtered beating terms + dark-current offset")
+        ao2 = D.PD(x, BW, p["r"], float(rng.uniform(0, 400)), p["R_load"], "ase-only", p["i_dark"], float(rng.uniform(0, 10)))
+        ctx.check("twin.ase_only", np.array_equal(ao2.noise, ao.noise) and np.array_equal(ao2.signal, ao.signal), "'ase-only' output depends on T / Fn although no thermal term is selected")
         ctx.check("twin.ase_only_no_draw", _same_state(np.random.get_state(), st), "'ase-only' consumed random numbers (thermal/shot must not be drawn)")
     ctx.check("input_unchanged", core.digest(x.signal, x.noise) == d0, "PD modified its input")
     ctx.case(("det", n_pol, noise, sel, n, fs, round(np.log10(p["R_load"])), p["T"] == 0, p["i_dark"] == 0), nontrivial=n >= 32,
